@@ -874,6 +874,7 @@ class C01(PropertyCheck):
         ws = [{"kind": "circuit", "N": 1, "gates": [G("GLOBALPHASE", [], [], p8=2).js()], "ug": []},
               {"kind": "compact", "N": 9, "gates": [G("X", [4], []).js()] + [G("IDLE", [q], []).js() for q in range(9) if q != 4]
                + [G("CNOT", [4], [8]).js()]}]
+        ws.append({"kind": "circuit", "N": 2, "gates": [G("X", [1], []).js(), G("SNOT", [1], []).js()], "ug": []})
         ws += [self._random_witness(ctx.rng) for _ in range(40)]
         for w in ws:
             f, d = self.oracle_replay(ctx, w)
